@@ -154,6 +154,63 @@ def gen_instances(rng, quick):
     yield 'pure path', pathlib.PosixPath('/tmp/x')
 
 
+def rand_instances(rng, n):
+    """seeded random instances of every family (contents from the built-in value generator)"""
+    def val(depth=2):
+        return V.build(V.rand_tree(rng, depth=depth, budget=[rng.randint(1, 5)]))
+
+    def hval():
+        return V.build(V.rand_tree(rng, depth=1, budget=[2], hashable_only=True)) if rng.random() < 0.3 else rng.choice([rng.randint(-5, 5), V.rand_text(rng, 12), (1, 'a'), 2.5, None, b'k'])
+    zones = tzs()
+    for _ in range(n):
+        c = rng.randrange(16)
+        if c == 0:
+            yield 'OrderedDict', collections.OrderedDict((hval(), val()) for _ in range(rng.randint(0, 5)))
+        elif c == 1:
+            yield 'defaultdict', collections.defaultdict(rng.choice([None, list, int, dict, set, str, float, tuple, frozenset, bytes]), [(hval(), val()) for _ in range(rng.randint(0, 4))])
+        elif c == 2:
+            n_ = rng.randint(0, 6)
+            yield 'deque', collections.deque([val() for _ in range(n_)], maxlen=rng.choice([None, 0, 1, n_, n_ + 1, 100]))
+        elif c == 3:
+            yield 'Counter', collections.Counter({hval(): rng.choice([0, 1, 2, -1, 10 ** 6, 5, 5]) for _ in range(rng.randint(0, 6))})
+        elif c == 4:
+            yield 'ChainMap', collections.ChainMap(*[{hval(): val(1) for _ in range(rng.randint(0, 2))} for _ in range(rng.randint(0, 4))])
+        elif c == 5:
+            yield 'mappingproxy', types.MappingProxyType({hval(): val() for _ in range(rng.randint(0, 4))})
+        elif c == 6:
+            yield 'SimpleNamespace', types.SimpleNamespace(**{rng.choice(['a', 'b', 'zz', '_p', 'Cap', 'x1', 'é']) + str(i): val() for i in range(rng.randint(0, 4))})
+        elif c == 7:
+            yield 'UUID', uuid.UUID(int=rng.getrandbits(128))
+        elif c == 8:
+            yield 'namedtuple', rng.choice([Point1(val()), Point3(val(), val(1), val(1)), NT(val(), val()), Point0()])
+        elif c == 9:
+            yield 'partial', functools.partial(rng.choice([int, sorted, dict, max, len, print, isinstance, str]), *[val(1) for _ in range(rng.randint(0, 3))],
+                                               **{k: val(1) for k in rng.sample(['key', 'base', 'reverse', 'default', 'sep'], rng.randint(0, 2))})
+        elif c == 10:
+            cls = rng.choice([ValueError, KeyError, OSError, RuntimeError, Exception, TypeError, LookupError, ArithmeticError, AttributeError, StopIteration, UnicodeError, EOFError, BufferError])
+            if cls is OSError and rng.random() < 0.6:
+                yield 'exception', OSError(rng.choice([1, 2, 13, 17, 20, 21, 32, 104, 110, 111, 9999]), V.rand_text(rng, 20))
+            else:
+                yield 'exception', cls(*[val(1) for _ in range(rng.randint(0, 4))])
+        elif c == 11:
+            segs = [rng.choice(['a', '..', '.', 'dir with space', "q'uote", 'd"q', 'é', 'x' * rng.randint(1, 30), 'b.c', '~', '#h']) for _ in range(rng.randint(0, 9))]
+            text = ('/' if rng.random() < 0.5 else '') + '/'.join(segs)
+            yield 'pure path', rng.choice([pathlib.PurePosixPath, pathlib.PureWindowsPath, pathlib.PurePath])(text)
+        elif c == 12:
+            d = dt.datetime(rng.randint(1, 9999), rng.randint(1, 12), rng.randint(1, 28), rng.choice([0, rng.randint(0, 23)]), rng.choice([0, rng.randint(0, 59)]),
+                            rng.choice([0, rng.randint(0, 59)]), rng.choice([0, 1, 999999, rng.randint(0, 999999)]), fold=rng.choice([0, 0, 1]))
+            yield 'datetime', d.replace(tzinfo=rng.choice(zones))
+        elif c == 13:
+            t = dt.time(rng.choice([0, rng.randint(0, 23)]), rng.choice([0, rng.randint(0, 59)]), rng.choice([0, rng.randint(0, 59)]), rng.choice([0, rng.randint(0, 999999)]), fold=rng.choice([0, 0, 1]))
+            yield 'time', t.replace(tzinfo=rng.choice([None, dt.timezone.utc, dt.timezone(TD(minutes=rng.randint(-1439, 1439))), pytz.utc, pytz.FixedOffset(rng.randint(-700, 700))]))
+        elif c == 14:
+            yield 'timedelta', TD(days=rng.choice([0, 1, 364, 365, 366, 729, 730, 731, 1095, 1096, rng.randint(-100000, 100000)]), seconds=rng.choice([0, 59, 60, 3599, 3600, 86399, rng.randint(0, 86399)]),
+                                  microseconds=rng.choice([0, 1, 999, 1000, 999999, rng.randint(0, 999999)])) * rng.choice([1, 1, -1])
+        else:
+            off = TD(seconds=rng.randint(-86399, 86399), microseconds=rng.choice([0, 0, rng.randint(0, 999999)]))
+            yield 'timezone', dt.timezone(off) if rng.random() < 0.5 else dt.timezone(off, V.rand_text(rng, 10))
+
+
 def skey(o):
     """structural key: equality of keys == the equality the property demands"""
     t = type(o)
@@ -291,7 +348,9 @@ def run_shard(sh):
     quick = sh.tier == 'quick'
     idx = 0
     rng0 = V.rng_for('c07gen', sh.seed)
-    for tname, inst in gen_instances(rng0, quick):
+    import itertools
+    stream = itertools.chain(gen_instances(rng0, quick), rand_instances(V.rng_for('c07rand', sh.seed), 1500 if quick else 60000))
+    for tname, inst in stream:
         for ctx in CONTEXTS:
             if ctx == 'dictkey' and not is_hashable(inst):
                 continue
@@ -324,7 +383,9 @@ def replay(wit):
     c = wit['case']
     rng0 = V.rng_for('c07gen', wit.get('seed', 0))
     hit = False
-    for tname, inst in gen_instances(rng0, wit.get('tier', 'quick') == 'quick'):
+    import itertools
+    q = wit.get('tier', 'quick') == 'quick'
+    for tname, inst in itertools.chain(gen_instances(rng0, q), rand_instances(V.rng_for('c07rand', wit.get('seed', 0)), 1500 if q else 60000)):
         if tname == c['type'] and repr(inst)[:300] == c['instance']:
             hit = True
             text = check_one(sh, tname, inst, c['context'], c['cfg'])
